@@ -2019,3 +2019,11 @@ M('C01','viaslice-no-length-check','serializer/serix/utils.go',"""	if sliceValue
 		return ierrors.Errorf("can't decode %d elements into an array of length %d", sliceValue.Len(), arrValue.Len())
 	}
 	fillArrayFromSlice(arrValue, sliceValue)""",'tempcopy/array-of-objects')
+M('C14','inheritfrom-remove-before-unsub','ds/reactive/set_impl.go','unsubscribeCallbacks = append(unsubscribeCallbacks, unsubscribeFromSource, removeSourceElements)','unsubscribeCallbacks = append(unsubscribeCallbacks, removeSourceElements, unsubscribeFromSource)','derivedset/unsubscribe-removes')
+M('C14','onvariant-record-shared-by-sources','ds/reactive/set_impl.go',"""	for _, source := range sources {
+		unsubscribeCallbacks = append(unsubscribeCallbacks, newInheritedSource(s).subscribe(source))""","""	inherited := newInheritedSource(s)
+	for _, source := range sources {
+		unsubscribeCallbacks = append(unsubscribeCallbacks, inherited.subscribe(source))""",'derivedset/unsubscribe-removes', base='C14-17')
+M('C14','onvariant-record-detach-keeps-subscription','ds/reactive/set_impl.go',"""	i.unsubscribeFromSource()
+
+	i.target.inheritMutations(ds.NewSetMutations""","""	i.target.inheritMutations(ds.NewSetMutations""",'derivedset/unsubscribe-removes', base='C14-17')
